@@ -21,6 +21,7 @@ def parse_history(ctx, count):
     from mpilot.parser.parser import Parser
     from mpilot.program import Program
     rng = ctx.rng
+    prog.testlib()
     priors = ["A = B()\n", "\n\n\nA = B(\n  P = 1\n)\n\n", "READ(InFileName = x.csv, InFieldName = a)\n", "A = B(\n P = [1,\n 2,\n 3]\n)\nC = D(\n",
               "A = B(P = \"multi\nline\nstring\")\n", "A = B()\nC = D()\nE = (\n", "# only a comment\nA = B(P = 'x'\n\n\n   Q = 2)\n", "A = B()\r\nC = D()\r\n\r\n"]
     for _ in range(count):
@@ -30,8 +31,15 @@ def parse_history(ctx, count):
         hist = [rng.choice(priors) for _ in range(rng.randrange(0, 4))]
         for h in hist:
             try:
-                p.parse(h)
-            except SyntaxError:
+                # mostly on the same Parser; sometimes on a younger Parser object or through a load, while the long-lived one waits
+                r = rng.random()
+                if r < 0.7:
+                    p.parse(h)
+                elif r < 0.85:
+                    Parser().parse(h)
+                else:
+                    Program.from_source(h, libraries=(prog.TESTLIB,))
+            except Exception:
                 pass
         try:
             got = parsing.canon_program(p.parse(src))
